@@ -2,21 +2,26 @@
 (* Conformance layer: for every logged input the real server's rows must equal the              *)
 (* implementation-shaped function of SqlPrune.tla on that input, and the segments it decoded    *)
 (* must be exactly the ones the model scans (same pruning decisions, same early exit).          *)
+(* Two steps per line (load the input into the model's variables, then compare) so that the     *)
+(* function is evaluated on unprimed variables (TLC does not cache lazy values under a prime).  *)
 EXTENDS SqlPrune
 TraceLog == ndJsonDeserialize("trace.ndjson")
-VARIABLE l
-tvars == <<vars, l>>
-E == TraceLog[l]
+VARIABLES l, ld
+tvars == <<vars, l, ld>>
 SetOf(s) == {s[i] : i \in DOMAIN s}
-TInit == Init /\ l = 1 /\ TLCSet(7, 0)
-TEval == /\ l <= Len(TraceLog) /\ E.ev = "Eval" /\ l' = l + 1
-         /\ segs' = E.segs
-         /\ qry' = [part |-> E.q.part, omin |-> E.q.omin, omax |-> E.q.omax, tmin |-> E.q.tmin, tmax |-> E.q.tmax,
-                    form |-> E.q.form, mode |-> E.q.mode, k |-> E.q.k]
-         /\ phase' = "done"
-         /\ Impl'.rows = E.rows /\ Impl'.scanned = SetOf(E.scanned)
-Consumed == TLCSet(7, IF TLCGet(7) < l THEN l ELSE TLCGet(7))
-TNext == TEval /\ Consumed
+TInit == Init /\ l = 1 /\ ld = FALSE /\ TLCSet(7, 0)
+TLoad == /\ ~ld /\ l <= Len(TraceLog)
+         /\ LET e == TraceLog[l] IN
+            /\ e.ev = "Eval"
+            /\ segs' = e.segs
+            /\ qry' = [part |-> e.q.part, omin |-> e.q.omin, omax |-> e.q.omax, tmin |-> e.q.tmin, tmax |-> e.q.tmax,
+                       form |-> e.q.form, mode |-> e.q.mode, k |-> e.q.k]
+         /\ phase' = "done" /\ ld' = TRUE /\ l' = l
+TCheck == /\ ld
+          /\ LET e == TraceLog[l]  out == Impl IN out.rows = e.rows /\ out.scanned = SetOf(e.scanned)
+          /\ ld' = FALSE /\ l' = l + 1 /\ UNCHANGED vars
+          /\ TLCSet(7, IF TLCGet(7) < l THEN l ELSE TLCGet(7))
+TNext == TLoad \/ TCheck
 TSpec == TInit /\ [][TNext]_tvars
 Reached == PrintT(<<"CONF", ToJson([reached |-> TLCGet(7), total |-> Len(TraceLog)])>>)
 ====
